@@ -109,6 +109,9 @@ pub fn entries() -> &'static Vec<Entry> {
             entry::<RegionSut<Codec>>(),
             entry::<RegionSut<StrCodec>>(),
             entry::<RegionSut<PairsCodec>>(),
+            entry::<RegionSut<UserCodecReg>>(),
+            entry::<RegionSut<StrUserCodec>>(),
+            entry::<RegionSut<CollapseUserCodec>>(),
             // FlatStacks
             entry::<StackSut<Str, Vec<P2>>>(),
             entry::<StackSut<OwnedU8, Vec<P2>>>(),
